@@ -38,11 +38,14 @@ inductive LicenceFor (gh : Ghost) (files : List FileInfo) (dirs : List DirInfo) 
       (hmode : f.mode ≠ .ReadOnly)
       (hnew : ∀ c, c ∈ cs'.drop (chainOf gh.G f.entry.cluster).length → c ∉ gh.G.flatten) :
       LicenceFor gh files dirs d (.write h data) (writeLicence (chainOf gh.G f.entry.cluster) cs' f.currentOffset k)
-  /-- `flush h` of the open file `f`, which was written to: its slot (and the info sector on FAT32) -/
-  | flush (h : Nat) (f : FileInfo) (hf : f ∈ files) (hh : f.rawFile = h) (hd : f.dirty = true) :
+  /-- `flush h` of the open file `f` — the first record with handle `h` —, which was written to: its slot (and the info
+  sector on FAT32) -/
+  | flush (h : Nat) (f : FileInfo) (hf : f ∈ files) (hh : f.rawFile = h) (hd : f.dirty = true) (i : Nat)
+      (hidx : files.findIdx? (·.rawFile = h) = some i) (hfi : files[i]? = some f) :
       LicenceFor gh files dirs d (.flush h) (flushLicence gh.vol f.entry)
   /-- `closeFile h`: the same -/
-  | closeFile (h : Nat) (f : FileInfo) (hf : f ∈ files) (hh : f.rawFile = h) (hd : f.dirty = true) :
+  | closeFile (h : Nat) (f : FileInfo) (hf : f ∈ files) (hh : f.rawFile = h) (hd : f.dirty = true) (i : Nat)
+      (hidx : files.findIdx? (·.rawFile = h) = some i) (hfi : files[i]? = some f) :
       LicenceFor gh files dirs d (.closeFile h) (flushLicence gh.vol f.entry)
   /-- `closeVolume`: the info sector on FAT32 -/
   | closeVolume (v : Nat) : LicenceFor gh files dirs d (.closeVolume v) (infoLicence gh.vol)
@@ -242,7 +245,7 @@ theorem flush_callOK {s : Mgr} {gh : Ghost} (hI : VolInv s gh) (hm : Mirror gh.v
     refine ⟨?_, fun i' f' hi' hf' => ?_⟩
     · by_cases hd : f.dirty = true
       · rw [hrun]
-        exact ⟨_, .flush file f hfm hrf hd, hl, hm1⟩
+        exact ⟨_, .flush file f hfm hrf hd i hidx hf, hl, hm1⟩
       · have hd' : f.dirty = false := by simpa using hd
         rw [WriteSet.flushFile_clean_nowrite s file i f hidx hf hd']
         exact callOK_nowrite _ hm rfl rfl
@@ -271,7 +274,7 @@ theorem closeFile_callOK {s : Mgr} {gh : Ghost} (hI : VolInv s gh) (hm : Mirror 
     obtain ⟨s1, hrun, hfiles, hl, hm1⟩ := (flush_callOK hI hm file).2 i f hidx hf
     by_cases hd : f.dirty = true
     · rw [WriteSet.closeFile_of_flush s s1 file i hidx hrun hfiles]
-      exact ⟨_, .closeFile file f hfm hrf hd, hl, hm1⟩
+      exact ⟨_, .closeFile file f hfm hrf hd i hidx hf, hl, hm1⟩
     · have hd' : f.dirty = false := by simpa using hd
       have hcl := WriteSet.flushFile_clean_nowrite s file i f hidx hf hd'
       rw [WriteSet.closeFile_of_flush s s file i hidx hcl rfl]
